@@ -20,6 +20,8 @@ CHECKS = {
          "Acceptance iff well-formed, value, error applicability and absence of panics judged per event.", "6 C05"),
  "C06": (MC, "HashCodec.tla byte-image layout and accessors executed by TLC on recorded conversions / accessors / quartile / clear_checksum events (TraceHash.tla)",
          "All slice lengths, header-field sweeps and accessor bundles judged per event.", "6 C06"),
+ "C07": (MC, "the specification is a function on every recorded event, so one reference transcript validated by TLC (TraceGen / TraceHash) plus byte-identical transcripts of a fixed seeded corpus across the 14-configuration matrix decides configuration independence; per-back-end hook events validated by TLC; Dispatch.tla model checked for every interleaving of first calls (MCDispatch) and raced first calls of fresh processes validated by TraceDispatch.tla",
+         "All stable x86_64 configurations of the matrix; schedules: exhaustive in the model, OS-produced over N process starts in the implementation.", "6 C07"),
  "C08": (MC, "Distance.tla laws checked by TLC on recorded law bundles (TraceHash.tla) and exhaustively on toy variants (MCDistance); the specification's max-distance witness replayed into the code",
          "Laws are checked both as equalities with the specification's distance and relationally between observed values.", "6 C08"),
  "C09": (MC, "LengthCode.tla on the pinned table: TLC model check of the table laws (MCLengthCode), Apalache over unbounded integers for symbolic lengths (LengthCodeApa), and TLC trace validation of the exhaustive native sweep of all 2^32 lengths compressed to 171 runs plus all 256 raw codes (TraceLen.tla)",
